@@ -1339,7 +1339,12 @@ class Engine:
             if tgt.id in self.c.locals and val.ty != "none":
                 want = self.c.locals[tgt.id]
                 if isinstance(val.ty, tuple) and None in val.ty:
-                    self.refine(val, strip_opt(want))
+                    wt_ = strip_opt(parse_type(want))
+                    self.refine(val, wt_)
+                    if isinstance(wt_, tuple) and wt_[0] == "rec" and val.ty[0] == "rec" and not st.spec:
+                        # an empty {} declared as a record with optional keys: none of them is present yet
+                        for k_ in rec_optional(wt_):
+                            st.heap.store(f"has.{k_}", B, val.z, z3.BoolVal(False))
                 elif isinstance(val.ty, tuple) and val.ty[0] == "rec" and isinstance(parse_type(want), tuple) and strip_opt(parse_type(want))[0] == "dict" and not st.spec:
                     # a dict literal with constant keys assigned to a local declared as a (growing) dict: build the dict key by key
                     wt = strip_opt(parse_type(want))
